@@ -10,7 +10,7 @@ import itertools
 import rx
 
 from .. import chunking
-from ..common import Check, Outcome, Snap, subscribe, bootstrap
+from ..common import Check, Outcome, Snap, subscribe, subscribe2, bootstrap
 
 bootstrap()
 import rxsci.framing.line as line                      # noqa: E402
@@ -195,7 +195,7 @@ class C15(Check):
         if any(len(i) == 0 for i in items):
             out.tags.append('empty-item')
 
-        framed = subscribe(rx.from_(items).pipe(fr), Snap())
+        framed = subscribe2(rx.from_(items).pipe(fr), out, 'frame')
         if framed.err is not None or not framed.done:
             return out.fail('frame-failed', error=repr(framed.err), done=framed.done)
         stream = empty.join(framed.out)
@@ -238,7 +238,7 @@ class C15(Check):
                     else:
                         break
 
-        got = subscribe(rx.from_(chunks).pipe(un), Snap())
+        got = subscribe2(rx.from_(chunks).pipe(un), out, 'unframe')
         out.observed['chunks'] += len(chunks)
         out.observed['unframed_items'] += len(got.out)
         if got.err is not None:
